@@ -627,6 +627,13 @@ def replaceStep (acc atomic dbust : Bool) (st : CacheState) (entries : List (Str
         if busted2 then ({ st with schema := healed.getD s1, isValid := false }, .ok)
         else ({ st with schema := s1 }, .ok)
 
+/-- a structural plain assignment (`field.type = T`, `union.types = [...]`, `type.name = n`, `schema.query_type = T`, ...):
+    nothing but the `_current_resolvers()` comparison of `validate()` notices it. `tracks` = that comparison covers
+    everything the validator reads (fix C13-S12): then EVERY such assignment makes the next `validate()` recompute;
+    before the fix only the assignments the comparison happened to see (`seen`, probed on the live object). -/
+def assignStructureStep (tracks : Bool) (st : CacheState) (s' : SchemaD) (seen : Bool) : CacheState × Outcome :=
+  ({ st with schema := s', isValid := st.isValid && !(seen || tracks) }, .ok)
+
 def step (st : CacheState) : Op → CacheState × Outcome
   | .validate =>
     if st.isValid then (st, .ok)
@@ -679,9 +686,7 @@ def step (st : CacheState) : Op → CacheState × Outcome
     ({ st with schema := setFieldArgs st.schema tn fn args, isValid := st.isValid && !cfgCacheTracksArguments }, .ok)
   | .replaceTypes entries dirEntries healed =>
     replaceStep replaceAccumulates replaceAtomic replaceDirectivesBust st entries dirEntries healed
-  | .assignStructure s' seen =>
-    -- nothing but the `_current_resolvers()` comparison of `validate()` notices a plain assignment
-    ({ st with schema := s', isValid := st.isValid && !seen }, .ok)
+  | .assignStructure s' seen => assignStructureStep cfgCacheTracksStructure st s' seen
 
 def run (st : CacheState) : List Op → CacheState
   | [] => st
